@@ -141,7 +141,7 @@ def io_tile_bytes(name):
 # ------------------------------------------------------------------ workload
 def gen_rect(tape):
     kind = tape.pick(["interior", "lon_border", "lat_border", "corner", "touch",
-                      "dateline", "edge", "thin", "interior"], "rkind")
+                      "dateline", "edge", "thin", "interior", "degenerate"], "rkind")
     r = {"kind": kind}
     # anchor in units of cells relative to a tile edge
     lat_e = tape.choice(len(LAT_EDGES), "late")
@@ -196,6 +196,18 @@ def resolve_rect(r):
         else:
             top = -60.0 + h * DLAT
             fr[2] = 0.0
+    if kind == "degenerate":
+        # a rectangle without area: a point, or a transect along a parallel or
+        # a meridian, strictly inside cells (never on a grid line)
+        f0 = (50 + r["fr"][0] % 900) / 1000.0
+        f1 = (50 + r["fr"][1] % 900) / 1000.0
+        lat0 = top - f0 * DLAT
+        lon0 = left + f1 * DLON
+        shape = r["fr"][2] % 3
+        lat_lo = lat0 - (h * DLAT if shape == 2 else 0.0)
+        lon_hi = lon0 + (w * DLON if shape == 1 else 0.0)
+        return (float(max(-60.0 + 0.3 * DLAT, lat_lo)), float(lon0), float(lat0),
+                float(min(180.0 - 0.3 * DLON, lon_hi)))
     lat_max = top - fr[0] * DLAT
     lon_min = left + fr[1] * DLON
     lat_min = top - h * DLAT + fr[2] * DLAT
@@ -604,6 +616,8 @@ def _do_op(o, w, V, probe, SRTM30, cache, net, fast_log, present_before,
         probe("unaligned")
     if rk == "thin":
         probe("thinner_than_cell")
+    if rk == "degenerate":
+        probe("rectangle_without_area")
     if rk == "dateline":
         probe("at_dateline")
     if rk == "touch":
